@@ -17,7 +17,13 @@ FloatTexts == {[neg |-> n, int |-> i, frac |-> f, eneg |-> en, exp |-> e] :
                  en \in BOOLEAN, e \in {<<>>, <<0>>, <<3>>, <<1, 0>>, <<3, 0, 0>>}}
 \* an optional numeric column: short integer texts and the '.' placeholder (also an empty cell) that stands for a missing value
 OptTexts == {s \in IntTexts : Len(s) <= 2} \cup {<<DOT>>, <<>>}
-Items == CASE Mode = "format" -> Family(Ks) [] Mode = "parse" -> IntTexts [] Mode = "optional" -> OptTexts [] OTHER -> {ft \in FloatTexts : ~(ft.eneg /\ ft.exp = <<>>) /\ ~(ft.int = <<>> /\ ft.frac = <<>>)}
+\* float texts with more digits than a double holds (written by %.20f and the like): the value is still the decimal number
+LongFloatTexts == {[neg |-> FALSE, int |-> <<3>>, frac |-> <<1, 4, 1, 5, 9, 2, 6, 5, 3, 5, 8, 9, 7, 9, 3, 2, 3, 8, 4, 6>>, eneg |-> FALSE, exp |-> <<>>],
+                   [neg |-> FALSE, int |-> <<0>>, frac |-> <<1, 2, 3, 4, 5, 6, 7, 8, 9, 0, 1, 2, 3, 4, 5, 6, 7, 8, 9, 0>>, eneg |-> FALSE, exp |-> <<>>],
+                   [neg |-> TRUE,  int |-> <<1, 2, 3, 4, 5, 6, 7, 8, 9, 0, 1, 2, 3, 4, 5, 6, 7, 8, 9>>, frac |-> <<5>>, eneg |-> FALSE, exp |-> <<>>],
+                   [neg |-> FALSE, int |-> <<0>>, frac |-> <<0, 0, 0, 0, 0, 0, 0, 0, 0, 0, 0, 0, 0, 0, 0, 0, 0, 0, 0, 1, 2, 3, 4>>, eneg |-> FALSE, exp |-> <<>>]}
+Items == CASE Mode = "format" -> Family(Ks) [] Mode = "parse" -> IntTexts [] Mode = "optional" -> OptTexts [] Mode = "longfloat" -> LongFloatTexts \cup {[neg |-> FALSE, int |-> <<1>>, frac |-> <<5>>, eneg |-> FALSE, exp |-> <<>>]}
+               [] OTHER -> {ft \in FloatTexts : ~(ft.eneg /\ ft.exp = <<>>) /\ ~(ft.int = <<>> /\ ft.frac = <<>>)}
 
 Init == batch = <<>>
 Add(x) == Len(batch) < MaxBatch /\ batch' = Append(batch, x)
